@@ -29,6 +29,7 @@ type Engine struct {
 	Derived []Derived
 
 	fa     map[*ssa.Function]*FuncAnalysis
+	acc    map[*ssa.Function]*Node
 	sums   map[string]FactSet
 	inprog map[string]bool
 	// statistics
@@ -43,6 +44,7 @@ func NewEngine(p *load.Program) *Engine {
 		Expand:         []string{load.SSVModule, load.SpecModule, load.EKMModule},
 		MaxDepth:       6,
 		fa:             map[*ssa.Function]*FuncAnalysis{},
+		acc:            map[*ssa.Function]*Node{},
 		sums:           map[string]FactSet{},
 		inprog:         map[string]bool{},
 	}
@@ -440,9 +442,6 @@ func (a *FuncAnalysis) loopFacts() map[[2]int][]*Fact {
 					continue
 				}
 				f := per[key]
-				if f.Kind == "called" {
-					continue // an event of one iteration says nothing after the loop
-				}
 				res[k] = append(res[k], &Fact{Kind: "forall", Sub: f})
 			}
 		}
@@ -455,12 +454,15 @@ func (a *FuncAnalysis) loopFacts() map[[2]int][]*Fact {
 func (a *FuncAnalysis) events(ins ssa.Instruction, fs FactSet) {
 	switch ins := ins.(type) {
 	case *ssa.Call:
-		fs.Add(&Fact{Kind: "called", A: []*Node{a.D.call(&ins.Call)}})
+		fs.Add(&Fact{Kind: "called", A: []*Node{a.D.D(ins)}})
 	case *ssa.Defer:
 		fs.Add(&Fact{Kind: "deferred", A: []*Node{a.D.call(&ins.Call)}})
 	case *ssa.Go:
 		fs.Add(&Fact{Kind: "go", A: []*Node{a.D.call(&ins.Call)}})
 	case *ssa.Store:
+		if baseIsFresh(ins.Addr) {
+			return // initialising a fresh composite value is not an observable effect
+		}
 		switch ins.Addr.(type) {
 		case *ssa.FieldAddr, *ssa.Global, *ssa.FreeVar:
 			fs.Add(&Fact{Kind: "stored", A: []*Node{a.D.D(ins.Addr), a.D.D(ins.Val)}})
@@ -577,7 +579,7 @@ func (a *FuncAnalysis) condFacts(c ssa.Value, pol bool) []*Fact {
 					if op == token.NEQ {
 						k = "fail"
 					}
-					return []*Fact{{Kind: k, A: []*Node{a.D.call(&callOf(x).Call)}}, a.nilFact(x, op == token.EQL)}
+					return []*Fact{{Kind: k, A: []*Node{a.D.D(callOf(x))}}, a.nilFact(x, op == token.EQL)}
 				}
 				return []*Fact{a.nilFact(x, op == token.EQL)}
 			}
@@ -903,7 +905,7 @@ func (a *FuncAnalysis) classify(v ssa.Value, want string, facts FactSet, depth i
 		}
 		// untested result of a call: nil iff the callee succeeded
 		if c := callOf(v); c != nil && isErrorType(v.Type()) {
-			return maybe, []*Fact{{Kind: "ok", A: []*Node{a.D.call(&c.Call)}}}
+			return maybe, []*Fact{{Kind: "ok", A: []*Node{a.D.D(c)}}}
 		}
 		return maybe, nil
 	case "true", "false":
@@ -958,7 +960,38 @@ func (a *FuncAnalysis) byFacts(v ssa.Value, want string, facts FactSet) (tri, []
 
 func (a *FuncAnalysis) byFactsKnown(v ssa.Value, want string, facts FactSet) (tri, bool) {
 	d := a.D.D(v).String()
+	// A fact imported from a callee's summary may talk about a different
+	// dynamic call that merely renders the same; when a local edge fact and an
+	// imported one contradict each other, the local one is about this value.
 	has := func(k string) bool { _, ok := facts[k]; return ok }
+	local := func(k string) bool { f, ok := facts[k]; return ok && f.Via == "" }
+	pair := func(pos, neg string) (tri, bool) {
+		p, n := has(pos), has(neg)
+		switch {
+		case p && n:
+			if local(pos) && !local(neg) {
+				return yes, true
+			}
+			if local(neg) && !local(pos) {
+				return no, true
+			}
+			return maybe, false
+		case p:
+			return yes, true
+		case n:
+			return no, true
+		}
+		return maybe, false
+	}
+	switch want {
+	case "nil":
+		return pair("isnil("+d+")", "nonnil("+d+")")
+	case "true":
+		return pair("T("+d+")", "F("+d+")")
+	case "false":
+		return pair("F("+d+")", "T("+d+")")
+	}
+	_ = has
 	switch want {
 	case "nil":
 		if has("isnil(" + d + ")") {
@@ -1093,4 +1126,19 @@ func idxs(bs []*ssa.BasicBlock) []int {
 	}
 	sort.Ints(o)
 	return o
+}
+
+func baseIsFresh(addr ssa.Value) bool {
+	for {
+		switch x := addr.(type) {
+		case *ssa.FieldAddr:
+			addr = x.X
+		case *ssa.IndexAddr:
+			addr = x.X
+		case *ssa.Alloc:
+			return true
+		default:
+			return false
+		}
+	}
 }
